@@ -339,6 +339,8 @@ class Check:
         header: vernacular (Require Import ...). Sharded over NPROC coqc processes."""
         if not exprs:
             return []
+        if self.tier == "thorough":
+            timeout = max(timeout, 5400)      # the limit is for all shards together
         shards = [exprs[i:i + shard] for i in range(0, len(exprs), shard)]
         procs = []
         outs = [None] * len(shards)
@@ -520,6 +522,12 @@ class Check:
             json.dump(ev, f, indent=1, sort_keys=True, default=str)
         for fid in sorted(self.known_hits):
             print("KNOWN-FINDING: property=%s %s: %s" % (self.pid, fid, self.known_hits[fid]))
+        # listed findings that this run's inputs did not re-observe are still listed (they suppress nothing)
+        if not getattr(self, "replay_mode", False):
+            for f in load_known(self.pid):
+                if f.get("status") == "open" and f.get("id") not in self.known_hits:
+                    print("KNOWN-FINDING: property=%s %s: %s [listed; not re-observed by the inputs of this run]"
+                          % (self.pid, f.get("id"), str(f.get("description", ""))[:300]))
         for line, _ in self.violations:
             print(line)
         self.log("done: %d violation(s), %d known finding(s), %.1fs" % (len(self.violations), len(self.known_hits), wall))
